@@ -707,6 +707,7 @@ pub fn run(tier: Tier) {
     let mut ctx = Ctx::new("C02", tier);
     one_variant::<V512>(&mut ctx, tier);
     one_variant::<V1024>(&mut ctx, tier);
+    crate::history::differential(&mut ctx, "history_two_keys_verification", &["V512", "v512", "V1024", "v1024"], 2, &|_op, digest| { let _ = digest; if digest != "valid=true other_message=false corrupted=false" { Some("verify gave a wrong verdict".to_string()) } else { None } });
     crate::e5::run_part(&mut ctx, "verify");
     ctx.sample(json!({"n":512,"s2":"1*X^0","s1":"sparse with squared norm floor(beta^2)-1 = 34034725","expected":"accept (total = floor(beta^2))"}));
     ctx.sample(json!({"n":1024,"s2":"canonical body, last coefficient's unary run extended by 512 zeros","expected":"reject (value changes by 65536)"}));
